@@ -28,8 +28,16 @@ type Property struct {
 	Trusted     []string
 	// Controls: Go source added to package gkvlite as zz_verif_control.go; every
 	// expectation must be reported as violated on the control world.
-	ControlSrc string
-	Expect     []Expect
+	ControlSrc   string
+	ControlEdits []ControlEdit
+	Expect       []Expect
+}
+
+// ControlEdit splices a statement at the start of the body of a named function of
+// package gkvlite (located through the parsed AST, not by text).
+type ControlEdit struct {
+	Func string // "NewStoreEx" or "Store.Flush"
+	Stmt string
 }
 
 type Expect struct {
@@ -321,6 +329,13 @@ func replay(rep *Report, path string) int {
 // runControls loads the control world and requires every expectation to be violated.
 func runControls(p *Property) (bool, []string) {
 	overlay := map[string][]byte{filepath.Join(*flagRepo, "zz_verif_control.go"): []byte(p.ControlSrc)}
+	for _, e := range p.ControlEdits {
+		file, src, err := spliceAtFuncStart(*flagRepo, e.Func, e.Stmt, overlay)
+		if err != nil {
+			return false, []string{"control edit failed: " + err.Error()}
+		}
+		overlay[file] = src
+	}
 	w, err := LoadWorld(*flagRepo, overlay, nil, "")
 	if err != nil {
 		return false, []string{"control world failed to load: " + err.Error()}
